@@ -111,8 +111,9 @@ def c11(ctx):
 
 @prop("C07")
 def c07(ctx):
+    ans_states(ctx, ["TypeInv", "StateInv", "LawAppendOnly", "LawPopAfterPush"], "c01", widths=[(2, 4, 3, 2), (3, 6, 3, 1)])
     range_hists(ctx, ["TypeInv", "StateInv", "InSync"], "c07")
-    for c in ["seek_final", "seek_snapshot_inverted"]:
+    for c in ["seek_final", "seek_snapshot_inverted", "ans_seek"]:
         ctx.require(c)
 
 
@@ -184,6 +185,18 @@ def c18(ctx):
     for c in ["sizes_while_inverted", "not_exhausted_checked"]:
         ctx.require(c)
     bit_coders(ctx, "c18")
+    # model diagnostics on dyadic models (exact rationals computed by FixedPoint.tla)
+    diag = [(8, 3, 5, 0), (8, 5, 4, 0), (8, 8, 3, 0), (16, 4, 5, 0)] + ([(16, 12, 4, 0), (16, 16, 3, 0), (8, 5, 6, 0)] if ctx.tier == "thorough" else [(16, 16, 2, 0)])
+    for (b, p, maxlen, maxval) in diag:
+        cases = os.path.join(ctx.work, "diag_%d_%d.ndjson" % (b, p))
+        st = ctx.tlc("MC_Models", {"Kind": '"diag"', "B": b, "P": p, "MaxLen": maxlen, "MaxVal": maxval},
+                     invariants=["PredictedTablesValid", "DiagLaws", "Emit"], emit_to=cases, label="MC_Models_diag_%d_%d" % (b, p))
+        if st["spec_violation"]:
+            ctx.violation("specification: %s fails for dyadic diagnostics B=%d P=%d" % (st["spec_violation"], b, p), {"k": "spec", "module": "MC_Models"})
+            continue
+        ctx.vh("replay", mode="c18", infile=cases)
+    for c in ("diag_model", "diag_full_precision"):
+        ctx.require(c)
 
 
 # ---------------------------------------------------------------------------------------------- models
@@ -288,7 +301,7 @@ def bit_coders(ctx, mode):
 
 
 # (W, S, MaxData, MaxSyms, PSet, Binary)
-CHAIN_QUICK = [(2, 4, 3, 2, "{1,2}", "TRUE"), (2, 6, 4, 2, "{1,2}", "TRUE"), (2, 6, 4, 3, "{2}", "FALSE"), (3, 6, 3, 2, "{2,3}", "FALSE"), (2, 8, 4, 2, "{1,2}", "FALSE")]
+CHAIN_QUICK = [(3, 6, 3, 3, "{1}", "TRUE"), (2, 4, 3, 2, "{1,2}", "TRUE"), (2, 6, 4, 2, "{1,2}", "TRUE"), (2, 6, 4, 3, "{2}", "FALSE"), (3, 6, 3, 2, "{2,3}", "FALSE"), (2, 8, 4, 2, "{1,2}", "FALSE")]
 CHAIN_THOROUGH = [(2, 4, 4, 3, "{1,2}", "TRUE"), (2, 4, 4, 3, "{1,2}", "FALSE"), (2, 6, 5, 3, "{1,2}", "TRUE"), (2, 6, 4, 3, "{1,2}", "FALSE"),
                   (3, 6, 3, 2, "{1,2,3}", "TRUE"), (3, 9, 4, 2, "{2,3}", "FALSE"), (2, 8, 5, 3, "{1,2}", "TRUE"), (4, 8, 3, 2, "{2,4}", "FALSE")]
 CHAIN_LAWS = ["StateInv", "RestoreSame", "RestoreSuffix", "RestoreConcat", "StepInverse"]
@@ -350,12 +363,12 @@ def c15(ctx):
 def c17(ctx):
     maxlen = 4 if ctx.tier == "thorough" else 3
     cases = os.path.join(ctx.work, "backend.ndjson")
-    st = ctx.tlc("MC_Backend", {"MaxLen": maxlen}, invariants=["TypeInv", "LawRemaining", "LawSpace", "LawWriteRead", "LawSeek", "LawReverse", "Emit"], emit_to=cases)
+    st = ctx.tlc("MC_Backend", {"MaxLen": maxlen}, invariants=["TypeInv", "LawRemaining", "LawSpace", "LawWriteRead", "LawSeek", "LawReverse", "LawIterSticky", "Emit"], emit_to=cases)
     if st["spec_violation"]:
         ctx.violation("specification law %s fails:\n%s" % (st["spec_violation"], st.get("counterexample", "")), {"k": "spec", "module": "MC_Backend"})
         return
     ctx.vh("replay", mode="c17", infile=cases)
-    for c in ("vec", "cursor", "rev"):
+    for c in ("vec", "cursor", "rev", "adapters"):
         ctx.require(c)
 
 
